@@ -21,7 +21,10 @@ CHECKS = {
     "C02": _c("Gen_Deflate (RFC 1951 in TLA+) generates valid streams that use the format's unused freedom; each is "
               "analysed with both verify flags and must reconstruct to the input prefix, give identical results for "
               "both flags and be independent of the bytes after compressed_size; the same on compressor outputs and "
-              "their mutations.",
+              "their mutations and on the grammar catalogue of MC_Deflate. Predict.tla (abstract matcher oracle) and "
+              "MC_Match.tla (the concrete matcher of Match.tla: every small plaintext, every valid parse, 7 parameter "
+              "vectors) model-check that the reconstructor decodes exactly what the analyser saw; joint encode / decode "
+              "traces of real runs are validated by Trace_Stream.",
               "DESIGN.md 4 (C02)"),
     "C03": _c("Deflate.tla is the reference inflater (RFC 1951 transcribed independently of the Rust tables; itself "
               "validated against zlib on every generated stream). Generated behaviours carry the tokens and plaintext "
@@ -36,11 +39,20 @@ CHECKS = {
               "reference writes (correction data of compressor-made, generated and boundary-sweep streams; containers) "
               "are read by the current build and compared byte for byte, and the operation sequence the reference "
               "encoded is compared with the one the current build decodes; every such history is validated by "
-              "Trace_History.",
+              "Trace_History. Independently of the reference build the stored format is frozen as a specification: "
+              "Match.tla (all hash functions, dictionary policy, chain walk, limits, lazy rule, hop counts, the "
+              "correction operations of every token), HuffCalc / TreePredict / Stream / Params; the current build's "
+              "analyses (all compressors, a sloppy compressor, perturbed parameter vectors, and every plaintext up to "
+              "8 (thorough: 10) bytes with every valid parse) are validated token by token by Trace_Match and "
+              "Trace_Stream.",
               "DESIGN.md 4 (C04)"),
     "C05": _c("Generated valid-but-unusual streams, compressor outputs with 8 mutations each, and every byte string up "
               "to 2 (thorough: 3) bytes are analysed with both verify flags under a watchdog; a panic or a hang is a "
-              "trace event the specification has no transition for.",
+              "trace event the specification has no transition for; a run that dies is repeated case by case in "
+              "forked children with CPU and memory limits. DeflateParse / MC_Deflate: the reader terminates on every "
+              "byte prefix of the grammar catalogue. Positions.tla: the 16-bit position arithmetic of the hash tables "
+              "never overflows (TLC bounded, Apalache inductive invariant for all positions), and the critical "
+              "positions it prints are realised as zlib streams.",
               "DESIGN.md 4 (C05)"),
     "C06": _c("Scan.tla predicts the chunk structure of every abstract file (invariants Found / NothingElse: exactly "
               "the embedded streams above the threshold are expanded, at the right offsets); all files of up to 3 "
